@@ -6,6 +6,7 @@ import NiVerif.Proofs.WfmLemmas
 import NiVerif.Props.C01
 import NiVerif.Props.C09
 import NiVerif.Props.ExtProps
+import NiVerif.Gen.AppendTiming
 
 namespace Props.C10
 open Model.Wfm Proofs.Wfm Props.C01 Props.C09
@@ -403,5 +404,62 @@ theorem gen_merge_fold (p : List (String × String)) (os : List (List (String ×
   induction os generalizing p with
   | nil => rfl
   | cons o os ih => simp only [List.foldl_cons, Props.ExtProps.gen_merge_eq_model]
+
+/-! ### T18: the timing rules as regenerated from the three strategies and `Timing._append_timing` are the model's -/
+
+/-- **the generated `_append_timing` (strategy table + the three `append_timing` methods) is the model's `appendTiming`** for every
+    receiver whose irregular form carries no sample interval (what `Timing.__init__` guarantees, C20) -/
+theorem gen_append_timing_eq_model (t o : WTiming) (h : t.mode = .irregular → t.interval = none) :
+    Gen.AppendTiming.append_timing t o = appendTiming t o := by
+  unfold Gen.AppendTiming.append_timing appendTiming
+  cases hm : t.mode with
+  | none =>
+    simp only [Gen.AppendTiming.none_append_timing]
+    cases ho : o.mode <;> simp [ho]
+  | regular =>
+    simp only [Gen.AppendTiming.regular_append_timing]
+    cases ho : o.mode <;> simp [ho]
+  | irregular =>
+    have hi := h hm
+    simp only [Gen.AppendTiming.irregular_append_timing, createIrregular]
+    by_cases ho : o.mode = .irregular
+    · simp only [ho, ne_eq, not_true_eq_false, if_false]
+      by_cases h1 : t.stamps = []
+      · simp [h1]
+      · by_cases h2 : o.stamps = []
+        · simp [h1, h2]
+        · simp only [h1, h2, if_false]
+          by_cases hmono : Model.Timing.areMonotonic (t.stamps ++ o.stamps) = true
+          · simp only [hmono, if_true, Except.map]
+            congr 2
+            cases t; simp_all
+          · simp [hmono, Except.map]
+    · simp [ho]
+
+/-- **the generated `_append_timestamps` is the model's `appendTimestamps`** -/
+theorem gen_append_timestamps_eq_model (t : WTiming) (ts : Option (List Int)) (ok : Bool) (h : t.mode = .irregular → t.interval = none) :
+    Gen.AppendTiming.append_timestamps t ts ok = appendTimestamps t ts ok := by
+  unfold Gen.AppendTiming.append_timestamps appendTimestamps
+  cases hm : t.mode with
+  | none => simp only [Gen.AppendTiming.none_append_timestamps]
+  | regular => simp only [Gen.AppendTiming.regular_append_timestamps]
+  | irregular =>
+    have hi := h hm
+    simp only [Gen.AppendTiming.irregular_append_timestamps, createIrregular]
+    cases ts with
+    | none => rfl
+    | some l =>
+      simp only
+      by_cases hok : ok = true
+      · simp only [hok, not_true_eq_false, if_false]
+        by_cases hl : l = []
+        · simp [hl]
+        · simp only [hl, if_false]
+          by_cases hmono : Model.Timing.areMonotonic (t.stamps ++ l) = true
+          · simp only [hmono, if_true]
+            congr 1
+            cases t; simp_all
+          · simp [hmono]
+      · simp [hok]
 
 end Props.C10
